@@ -306,7 +306,7 @@ pub fn run(args: &Args) -> i32 {
         // all sizes (ICMP and UDP; TCP ignores the size)
         let sizes: Vec<u16> = if cell.proto == Proto::Tcp { vec![84] } else { (min..=1024).collect() };
         for &size in &sizes {
-            let full = tier == Tier::Thorough || size < min + 16 || size > 1008 || size % 64 < 2;
+            let full = true;
             let combos: Vec<(u8, u8)> = if full { vec![(0, 0), (1, 0xaa), (0xfc, 0xff), (0xff, 0x55)] } else { vec![((size % 251) as u8, (size % 253) as u8)] };
             for (tos, pattern) in combos {
                 tasks.push(Task { cell, p: base(size, tos, pattern, 4, 33434) });
@@ -314,12 +314,30 @@ pub fn run(args: &Args) -> i32 {
         }
         // all tos, all ttl (254 probes per round), boundary initial sequences
         for size in [min.max(if cell.v6 { 48 } else { 28 }), 84.max(min), 1024] {
-            let toses: Vec<u8> = if tier == Tier::Thorough { (0..=255).collect() } else { vec![0, 1, 2, 4, 8, 16, 32, 64, 128, 0xfc, 0xff] };
+            let toses: Vec<u8> = (0..=255).collect();
             for tos in toses {
                 tasks.push(Task { cell, p: base(size, tos, tos.wrapping_mul(7), 254, 33434) });
             }
             for init in [0u16, 1, 255, 256, 0x7fff, 0x8000, 63999, 64511] {
                 tasks.push(Task { cell, p: base(size, 0, 0, 254, init) });
+            }
+        }
+        // the full issuable sequence range: 254 probes per round from sequence 0 until the allocator
+        // has wrapped (every cell in thorough, one cell per protocol/strategy/family class in quick)
+        let class_rep = cell.privileged && !cell.ext && matches!(cell.ports, crate::drive::Ports::None | crate::drive::Ports::FixedSrc);
+        if tier == Tier::Thorough || class_rep {
+            let mut p = base(84.max(min), 0x28, 0x3c, 254, 0);
+            p.rounds = 258;
+            tasks.push(Task { cell, p });
+        }
+        // thorough: every tos x six patterns at six sizes
+        if tier == Tier::Thorough && cell.proto != Proto::Tcp {
+            for size in [min, min + 1, 84.max(min), 85.max(min), 1023, 1024] {
+                for tos in 0..=255u8 {
+                    for pattern in [0u8, 1, 0x55, 0xaa, 0xfe, 0xff] {
+                        tasks.push(Task { cell, p: base(size, tos, pattern, 2, 33434) });
+                    }
+                }
             }
         }
         // illegal sizes: refused, nothing sent
@@ -367,7 +385,7 @@ pub fn run(args: &Args) -> i32 {
     rep.set("evaluations", json!(n));
     rep.set("distinct_nontrivial", json!(legal));
     rep.set("tracer_runs", json!(runs));
-    rep.set("rule", json!("56 cells; probes issued by the real strategy over a silent network (2 rounds): every packet size min..1024 (x4 tos/pattern combinations at boundary sizes, all sizes in thorough) with ttl 1..4; every ttl 1..254 x tos {11 values quick / all 256 thorough} x sizes {min,84,1024}; initial sequences {0,1,255,256,0x7fff,0x8000,63999,64511}; illegal sizes {0,1,min-1,1025,2000,65535} must be refused with InvalidPacketSize and nothing sent. Each datagram decoded by the independent codec and compared with configuration and with the strategy's own probe record. distinct_nontrivial = decoded datagrams of legal configurations (all distinct: size/ttl/sequence differ)"));
+    rep.set("rule", json!("56 cells; probes issued by the real strategy over a silent network (2 rounds): every packet size min..1024 (x4 tos/pattern combinations) with ttl 1..4; every ttl 1..254 x every tos 0..255 x sizes {min,84,1024}; initial sequences {0,1,255,256,0x7fff,0x8000,63999,64511}; the whole issuable sequence range (258 rounds x 254 probes from sequence 0; one cell per class in quick, all cells in thorough); thorough: every tos x 6 patterns x 6 sizes; illegal sizes {0,1,min-1,1025,2000,65535} must be refused with InvalidPacketSize and nothing sent. Each datagram decoded by the independent codec and compared with configuration and with the strategy's own probe record. distinct_nontrivial = decoded datagrams of legal configurations (all distinct: size/ttl/sequence differ)"));
     for s in samples {
         rep.sample(s);
     }
